@@ -906,6 +906,27 @@ def check_marker_balance(ctx, pid):
                   'exactly once')
 
 
+def check_input_prompt(ctx, pid):
+    from . import gendrive
+    gendrive.report(
+        ctx, pid, kinds={'prompt-dependent-code'},
+        rule_suffix='prompt-text-does-not-steer-code',
+        rule_text='two INPUT statements that differ only in the text of the '
+                  'prompt literal compile to the same instructions up to '
+                  'that literal (the question mark and same-line flags come '
+                  'from the separators, not from the text)')
+
+
+def check_print_items(ctx, pid):
+    from . import gendrive
+    gendrive.report(
+        ctx, pid, kinds={'print-items'}, rule_suffix='print-items',
+        rule_text='gen_print_stmt hands the device one tagged entry per '
+                  'item of the statement, in source order; only semicolons '
+                  '(which print nothing) may be elided, never a value or a '
+                  'comma (abstract run over item-list shapes)')
+
+
 def check_flag_equivalence(ctx, pid):
     from . import gendrive
     gendrive.report(
